@@ -114,8 +114,9 @@ Print Assumptions image_image_inv.
    rotated back are Equal with the same Hash; its rotation is not Equal ---- *)
 Require Import PreserveEx TpsFacts7.
 From Coq Require Import String.
+Definition tps_p14 : list N := bytes_of "2,x3,1/x4,1C/x4,2S/x4,22221/2,x4 1 8".
 Example ex_however_produced : exists q r,
-  parse_tps gen_basis (bytes_of "2,x3,1/x4,1C/x4,2S/x4,22221/2,x4 1 8") = Ok q /\
+  format_tps p14 = tps_p14 /\ parse_tps gen_basis tps_p14 = Ok q /\
   r = image gen_basis (image gen_basis p14 (csym 5 6)) (csym 5 7) /\
   produced p14 /\ produced q /\ produced r /\
   equal p14 q = true /\ hash_of p14 = hash_of q /\ equal q r = true /\ hash_of q = hash_of r /\
@@ -124,7 +125,7 @@ Proof.
   destruct p14_hyps as (A & B & C & S).
   assert (P14 : produced p14) by (apply (produced_reachable 5 false 21 1 ms14); [lia|lia|exact no_pass_ms14|exact replay_ms14]).
   eexists. exists (image gen_basis (image gen_basis p14 (csym 5 6)) (csym 5 7)).
-  split; [vm_compute; reflexivity|]. split; [reflexivity|]. split; [exact P14|].
+  split; [vm_compute; reflexivity|]. split; [vm_compute; reflexivity|]. split; [reflexivity|]. split; [exact P14|].
   match goal with |- produced ?x /\ _ => set (q := x) end.
   assert (Eq : q = from_squares gen_basis (N.of_nat 5)
      [ [[P true 1]; []; []; []; []]; [[]; []; []; []; [P false 1; P true 1; P true 1; P true 1; P true 1]];
